@@ -48,6 +48,9 @@ def gen(rng: random.Random, tier: str, idx: int) -> dict:
         else:
             first = {"kind": "first_append", "tag": f"f{i}", "schema": rng.choice([None, "A", "B", "Ar"]),
                      "noinit": rng.random() < 0.4}
+            if rng.random() < 0.25:
+                # the first append hands over a pre-built parquet file (written with schema A or B)
+                first.update({"prebuilt": True, "wide": rng.random() < 0.6, "schema": None})
         ops = [first]
         if rng.random() < 0.5:
             ops.append({"kind": "first_append", "tag": f"g{i}", "schema": rng.choice([None, None, "A"])})
@@ -164,6 +167,15 @@ def execute(plan: dict, scratch: str, replay: Optional[dict] = None) -> dict:
                 if h["outcome"] == "raise" and h.get("exc") not in ("ValueError",):
                     V.append({"clause": "I.append_raised", "msg": f"[{cfg}] {h['actor']} first append raised {h.get('exc')}: {(h.get('msg') or '')[:200]}",
                               "sig": f"I.append_raised|{backend}|{plan['init']}|{h.get('exc')}"})
+                if h["op"].get("prebuilt"):
+                    # a pre-built file carries its own schema: refusing it is right unless it equals the persisted one
+                    fs = "B" if h["op"].get("wide") else "A"
+                    if h["outcome"] == "raise" and h.get("exc") == "ValueError" and st is not None \
+                            and st.schema_fields == world.SCHEMAS[fs]:
+                        V.append({"clause": "I.append_rejected",
+                                  "msg": f"[{cfg}] {h['actor']} pre-built file written with the persisted schema {fs} was rejected: "
+                                         f"{(h.get('msg') or '')[:160]}"})
+                    continue
                 if h["outcome"] == "raise" and h.get("exc") == "ValueError" and st is not None:
                     passed = h["op"].get("schema")
                     persisted = st.schema_fields
